@@ -207,6 +207,9 @@ def parse(text):
     pages = {"pass": "{{{1}}}", "passn": "{{{v}}}", "t": "TEMPLATE-T-EXPANDED"}
     for k, (tb, _) in MULTI.items():
         pages[k] = tb
+    for i, tg in enumerate(TAGS):
+        # documentation first (dropped on transclusion), then the template's own opaque region
+        pages["doc%d" % i] = "<noinclude><%s>''TD%dz''</%s> docs</noinclude><%s>''TK%dz''</%s> {{{1|}}}" % (tg, i, tg, tg, i, tg)
     for k, (tg, b) in OPAQUE_TEMPLATES.items():
         pages[k] = "<%s>%s</%s>" % (tg, b, tg)
     db = SynthDB(pages, "en")
@@ -437,8 +440,17 @@ def check_occurrences(R, kind, text, marks):
     """marks: {unique body word: expected number of occurrences in the tree's text}; no marker may leak"""
     case = {"shape": kind, "text": text, "marks": marks}
     R.breadcrumb(json.dumps(case))
+    nodb = kind in ("glued", "inside-ref-then-again") and "{{" not in text and len(text) % 2 == 0
+    if nodb:
+        # the parser's other configuration: raw text without a wiki database (no template expansion)
+        kind, case["nodb"] = kind + ":no-wikidb", True
+        R.count("occurrence_checks_without_wikidb")
     try:
-        tree = parse(text)
+        if nodb:
+            from mwlib.parser.refine.uparser import parse_string
+            tree = parse_string("T", raw=text, lang="en")
+        else:
+            tree = parse(text)
     except Exception as e:
         R.violation("raises:" + exc_key(e), "parse raised %s" % type(e).__name__, case, exc_detail(e))
         return
@@ -480,6 +492,29 @@ def adjacency_cases(rnd, nrandom):
             b1, b2, b3 = "''Bq%da''" % k, "''Bq%db''" % k, "''Bq%dc''" % k
             yield "inside-ref-then-again", "x<ref>r <%s>%s</%s></ref> y <%s>%s</%s> z<ref name=\"q\"><%s>%s</%s></ref>" % (
                 tag, b1, tag, tag2, b2, tag2, tag, b3, tag), {b1: 1, b2: 1, b3: 1}
+    # a region as the argument of a parser function that passes its argument through (markers must not be touched)
+    for fn in ("lc:%s", "uc:%s", "lcfirst:%s", "ucfirst:%s", "lc:X%sY", "uc:x%sy", "padleft:%s|3", "padright:%s|3", "#if:1|%s",
+               "#if:|n|%s", "#ifeq:a|a|%s", "#switch:q|#default=%s", "#switch:q|q=%s", "#tag:ref|%s", "#ifexpr:1|%s", "#if:1|{{lc:%s}}"):
+        for tag in TAGS:
+            k += 1
+            body = "''Bq%dZ'' [[n]]" % k
+            yield "function-argument", "a {{%s}} b" % (fn % ("<%s>%s</%s>" % (tag, body, tag))), {body: 1}
+    # every single atom as the whole body, in every context (a body that is exactly '|' or '=' or a closer ...)
+    for tag in TAGS:
+        for atom in BODY_ATOMS:
+            if re.search(r"</%s\s*>" % tag, atom.lower()) or "\x7f" in atom:
+                continue
+            for ctx in sorted(CONTEXTS):
+                yield "single-atom", (tag, atom, ctx), None
+    # an inclusion part that is dropped and holds a region, followed by a kept region
+    for tag in TAGS:
+        for tag2 in TAGS:
+            k += 1
+            kept, dropped = "''Kq%dz''" % k, "''Dq%dz''" % k
+            yield "dropped-part-then-region", "<includeonly><%s>%s</%s></includeonly> x <%s>%s</%s> y" % (
+                tag, dropped, tag, tag2, kept, tag2), {kept: 1, dropped: 0}
+            yield "dropped-part-then-region", "a {{doc%s}} b <%s>''Pq%dz''</%s>" % (TAGS.index(tag), tag2, k, tag2), \
+                {"''TK%dz''" % TAGS.index(tag): 1, "''TD%dz''" % TAGS.index(tag): 0, "''Pq%dz''" % k: 1}
     for _ in range(nrandom):
         k += 1
         parts, marks = [], {}
@@ -511,7 +546,11 @@ def run_shard(desc, R):
         r2 = random.Random("C09:adjacency:%s" % desc["seed"])
         for i, (kind, text, marks) in enumerate(adjacency_cases(r2, desc["random"] * desc["n"])):
             if i % desc["n"] == desc["shard"]:
-                check_occurrences(R, kind, text, marks)
+                if kind == "single-atom":
+                    check_triple(R, *text)
+                    R.count("single_atom_bodies")
+                else:
+                    check_occurrences(R, kind, text, marks)
         return
     if desc["kind"] == "pairs":
         for _ in range(desc["count"]):
